@@ -1202,6 +1202,29 @@ fn c07(ix: &Ix, f: &mut Findings) {
             }
         }
     }
+    // a stopped / unreferenced healthy actor finishes the work accepted before that point
+    for (a, x) in ix.actors.iter().enumerate() {
+        if ix.exempt(a) || x.ended.is_none() {
+            continue;
+        }
+        let cutoff = ix.first_stop_start(a).unwrap_or(usize::MAX);
+        for op in &x.msgs {
+            let o = &ix.ops[op];
+            let accepted = (o.accepted_tell() && o.end.as_ref().unwrap().0 < cutoff) || (o.kind.ask_family() && o.s < cutoff && ix.certainly_accepted(o));
+            if !accepted {
+                continue;
+            }
+            f.o("C07.work");
+            let ok = match (ix.henter.get(&o.uid), x.c()) {
+                (Some(h), Some(c)) => h[0] < c,
+                (Some(_), None) => true,
+                (None, _) => false,
+            };
+            if !ok {
+                f.v("C07.work", Some(a), format!("actor {a} ended gracefully (stop / no reference left) but {:?} uid {}, accepted before that point, was not handled before on_stop", o.kind, o.uid));
+            }
+        }
+    }
     // healthy endings: stopped or unreferenced actors finish with on_stop(killed=false)
     for (a, x) in ix.actors.iter().enumerate() {
         if ix.exempt(a) || x.ended.is_none() {
